@@ -27,6 +27,7 @@ Definition EU (t : Uint63.int) (p ip port hid : N) : event := EUapi (n_of_int t)
 Definition SH (p : N) (d : Uint63.int) : event := EShiftHs p (n_of_int d).
 Definition ERS (t : Uint63.int) : event := ERestart (n_of_int t).
 Definition ESN (p : N) : event := ESetNonce p.
+Definition EAK (p : N) : event := EAgeKeys p.
 
 Definition OD (kind ip port peer : N) : oobs := {| o_kind := kind; o_to := (ip, port); o_peer := peer |}.
 Definition OB (outs : list oobs) (eps : list (N * option addr)) : sobs := {| s_outs := outs; s_eps := eps |}.
@@ -119,7 +120,8 @@ Definition predict_case (k : case) := predict (init_state k) (c_steps k).
     9 transport accepted; 10 transport replayed / out of window; 11 transport bad tag; 12 transport wrong
     index or dead session; 13 batch with more than one element; 14 TUN -> initiation; 15 TUN -> transport;
     16 TUN staged only; 17 UAPI endpoint=; 18 steps in which an endpoint moved; 19 confirming element released staged packets;
-    20 restart (Down/Up); 21 send counter pushed over RekeyAfterMessages; 22 TUN packet -> transport and rekey initiation] *)
+    20 restart (Down/Up); 21 send counter pushed over RekeyAfterMessages; 22 TUN packet -> transport and rekey initiation;
+    23 keypairs aged beyond 180 s; 24 transport under a keypair older than 180 s] *)
 
 Fixpoint bump (l : list N) (i : nat) : list N :=
   match l, i with
@@ -139,7 +141,7 @@ Definition classify_elem (st : dstate) (e : telem) : nat :=
           | None => 12%nat
           | Some x => match slot_of x sid with
                       | None => 12%nat
-                      | Some _ => if t_tag e then 10%nat else 11%nat
+                      | Some (_, s) => if s_expired s then 24%nat else if t_tag e then 10%nat else 11%nat
                       end
           end
       end
@@ -187,6 +189,7 @@ Definition classify (st : dstate) (e : event) : list nat :=
   | EShiftHs _ _ => []
   | ERestart _ => [20%nat]
   | ESetNonce _ => [21%nat]
+  | EAgeKeys _ => [23%nat]
   end.
 
 Fixpoint stats_steps (st : dstate) (tr : list (event * sobs)) (acc : list N) : list N :=
@@ -196,4 +199,4 @@ Fixpoint stats_steps (st : dstate) (tr : list (event * sobs)) (acc : list N) : l
   end.
 
 Definition stats (ks : list case) : list N :=
-  fold_left (fun acc k => stats_steps (init_state k) (c_steps k) acc) ks (repeat 0 23).
+  fold_left (fun acc k => stats_steps (init_state k) (c_steps k) acc) ks (repeat 0 25).
